@@ -392,7 +392,7 @@ type bGroup struct {
 	rec   BIndex
 	idx   bleve.Index
 	live  map[int]BDoc
-	seen  map[string][]Match     // per query: arrivals with rank scores
+	seen  map[string][]Match // per query: arrivals with rank scores
 	score map[string]map[int]float64
 	ranks map[string][]float64 // sorted distinct scores
 }
